@@ -48,19 +48,35 @@ def _raise(excname):
     raise mk()
 
 
-def fault_case(cfg, base_answer, k, excname):
+def fault_case(cfg, base_answer, k, excname, resume=True):
     """Solve with the k-th evaluation raising; returns messages"""
     def answer(i, y):
         if i == k:
             _raise(excname)
         return base_answer(i, y)
-    run = tree.make_run(dict(cfg, eps=0.0, itersLimit=k + 3), answer)
+    from mc.env import Recorder
+    told = []      # every trial a listener was told about: (x, point, value)
+    rec = Recorder(on_iter=lambda pts, sol: told.extend(
+        (p.GetX(), np.array(p.GetY().floatVariables, dtype=float), p.GetZ()) for p in pts))
+    run = tree.make_run(dict(cfg, eps=0.0, itersLimit=k + 3), answer, listeners=[rec] if k % 2 == 0 else [])
     try:
         sol = run.solve()
     except BaseException as e:
         return [f"{excname} raised by evaluation {k} escaped from Solve as {type(e).__name__}"]
     msgs = []
     log = run.problem.log
+
+    def told_ok(where):
+        seen = set()
+        for (x, y, z) in told:
+            if not any(np.array_equal(y, yy) and z == v for yy, v in run.problem.log):
+                return [f"{where}: a listener was told about a trial at x={x!r} with value {z!r}, which is not one of the "
+                        f"{len(run.problem.log)} completed trials"]
+            if x in seen:
+                return [f"{where}: a listener was told twice about the trial at x={x!r}"]
+            seen.add(x)
+        return []
+    msgs += told_ok(f"after failure at evaluation {k} ({excname})")
     if len(log) != k - 1:
         msgs.append(f"{len(log)} evaluations completed, expected {k - 1} (failure at evaluation {k}, {excname})")
     if sol.numberOfGlobalTrials != k - 1:
@@ -75,6 +91,26 @@ def fault_case(cfg, base_answer, k, excname):
         if not any(np.array_equal(fy, y) for y, _ in log):
             if any(np.array_equal(np.asarray(it.y), fy) for it in snap.items[1:-1]):
                 msgs.append(f"{where}: the failed point {fy.tolist()} is recorded in the search information")
+    if msgs or not resume:
+        return msgs
+    # the solver is used again after the contained failure (the objective now answers): the result must again reflect
+    # exactly the completed trials
+    try:
+        sol = run.solve()
+    except BaseException as e:
+        return [f"{where}: Solve called again raised {type(e).__name__}: {e}"]
+    log = run.problem.log
+    where = f"Solve resumed after the failure at evaluation {k} ({excname})"
+    if sol.numberOfGlobalTrials != len(log):
+        msgs.append(f"{where}: reported {sol.numberOfGlobalTrials} global trials, {len(log)} evaluations were completed")
+    if len(log) > k + 3:
+        msgs.append(f"{where}: {len(log)} evaluations completed with itersLimit={k + 3}")
+    snap = Snapshot(run.solver)
+    msgs += check_optimum(snap, log, where)
+    msgs += check_record(snap, log, run.N, run.fresh_evolvent(), where)
+    msgs += told_ok(where)
+    if rec in getattr(run, "_listeners", [rec]) and k % 2 == 0 and len(told) != len(log):
+        msgs.append(f"{where}: listeners were told about {len(told)} trials, {len(log)} were completed")
     return msgs
 
 
